@@ -862,6 +862,11 @@ where
         })
         .collect::<Vec<_>>();
     cfgrammar::verif::set_recovery_budget_ms(None);
+    if errs.len() > lx.len() + 1 || merrs.len() > lx.len() + 1 {
+        // more errors than the input has lexemes: that alone is the observation (the full record
+        // of such a run can be hundreds of megabytes)
+        return json!({"recovery": recovery, "overflow": true, "nerrors": errs.len().max(merrs.len())});
+    }
     json!({
         "recovery": recovery,
         "act": {"result": act_result, "errors": act_errors, "nerrors": errs.len(), "events": act_events, "hook": hook},
